@@ -20,6 +20,9 @@ HEAP_SLOT = 1 << 20
 EXC_TYPE_STD = 0x7770
 
 
+_DEBUG = bool(os.environ.get('XSYM_DEBUG'))
+
+
 class Unsupported(Exception):
     pass
 
@@ -75,6 +78,7 @@ class Machine:
         self.heap = []
         self.obligations = []
         self.assumptions = []
+        self.gassumptions = []    # hold globally (input ranges, schedule shape)
         self.covers = {}
         self.observed = {}        # slot -> list of (guard, value)
         self.nondets = {}         # id -> term
@@ -89,6 +93,7 @@ class Machine:
         self.alloc_by_key = {}
         self.hist = {}
         self.win = None           # None = sequential; else function key -> Bool term
+        self.before = None        # key -> Bool term: executed in an earlier round
         self.stats = collections.Counter()
         self.fn_addr = {}; self.addr_fn = {}
         self.glob_addr = {}
@@ -105,6 +110,7 @@ class Machine:
         self.fixed = {}
         self.optimes = {}; self.pass_no = 0
         self.loop_hot = collections.Counter()
+        self.unsupported = []
         self.tolerant = False
         self.hard_loop_cap = 5000
         self.pruner = None; self.prune_above = 1 << 30; self.prune_loops = False; self.sym_loop_cap = 100
@@ -258,9 +264,18 @@ class Machine:
     # ------------------------------------------------------------ obligations
     def oblige(self, kind, cond, where, tag=None):
         if cond is False: return
+        if _DEBUG: where = where + ' @' + repr(tuple(self.keypath))
         self.obligations.append(Obligation(kind, cond, where, len(self.assumptions), tag, self.cur.tid))
         if cond is True and self.verbose:
             print('  definite violation:', kind, where)
+
+    def defer_unsupported(self, g, msg):
+        """an operation the engine cannot encode was met under guard g: if g is feasible the scenario is inconclusive
+        (decided by the solver later); garbage paths of window passes have infeasible guards."""
+        if g is True: raise Unsupported(msg)
+        if g is False: return
+        self.unsupported.append((g, msg))
+        self.stats['deferred_unsupported'] += 1
 
     def assume(self, c):
         if c is True: return
@@ -286,10 +301,17 @@ class Machine:
         if not isinstance(p, Term): return [(p, True)]
         vs = get_vs(p)
         if vs is None:
-            pv = possible_values(p, 64, 600, self.ranges)
+            pv = possible_values(p, 64, 2000, self.ranges)
             if pv is None and self.tolerant:
                 self.stats['tolerated_addr'] += 1
                 return []
+            if pv is None:
+                pvs = T.get_pvs(p)
+                if pvs is not None and pvs[0]:
+                    # some leaves of the pointer are not enumerable (uninitialised memory, unconstrained input):
+                    # the enumerable part is explored, the rest must be unreachable (else the scenario is inconclusive)
+                    self.defer_unsupported(And(g, pvs[1]), '%s through a pointer with non-enumerable values (%s)' % (what, self.where()))
+                    return sorted(pvs[0].items())
             if pv is None:
                 if os.environ.get('XSYM_DEBUG'):
                     def go(x, d=0):
@@ -299,7 +321,8 @@ class Machine:
                         if vs is None and d < 10:
                             for a in x.args: go(a, d + 1)
                     go(p)
-                raise Unsupported('symbolic address not enumerable: %s in %s / %s' % (T.show(p, 7), self.where(), what))
+                self.defer_unsupported(g, 'symbolic address not enumerable: %s in %s / %s' % (T.show(p, 7)[:400], self.where(), what))
+                return []
             self.stats['enum_addr'] += 1
             cs = [(a, Eq(p, a, 64)) for a in sorted(pv)]
         else:
@@ -340,10 +363,16 @@ class Machine:
         if al is None:
             if isinstance(size, Term):
                 pv = possible_values(size, 64, 64, self.ranges)
-                if pv is None: raise Unsupported('symbolic allocation size ' + self.where())
+                if pv is None:
+                    if not self.tolerant: self.defer_unsupported(g, 'symbolic allocation size %s in %s' % (T.show(size, 6)[:300], self.where()))
+                    pv = [256]
                 csize = max(pv)
             else: csize = size
-            if csize > HEAP_SLOT * 8: raise Unsupported('allocation too large %d' % csize)
+            if csize > HEAP_SLOT * 8:
+                if self.win is None and not self.tolerant: raise Unsupported('allocation too large %d' % csize)
+                # inside a window pass the size may be garbage of a not-yet-executed path: flag it if it is real
+                self.oblige('huge-allocation', And(g, Cmp('ult', HEAP_SLOT * 8, size, 64)), 'allocation of more than %d bytes (%s)' % (HEAP_SLOT * 8, self.where()))
+                csize = max([v for v in (pv if isinstance(size, Term) else []) if v <= HEAP_SLOT * 8] or [16])
             nsl = max(1, (csize + HEAP_SLOT - 1) // HEAP_SLOT)
             if align > HEAP_SLOT: raise Unsupported('alignment')
             base = HEAP_BASE + len(self.heap) * HEAP_SLOT
@@ -591,11 +620,15 @@ class Machine:
         return And(g, self.win(key)), key
 
     def keep(self, key, eg, val, ty):
-        """value of a visible op's result: new value if executed in this pass else previous"""
+        """result of a visible operation across passes: if the operation already executed in an earlier round keep
+        that result, otherwise take this pass's value (meaningful iff the operation lies before this round's end;
+        everything depending on a not-yet-executed operation lies beyond the window and has no effect)"""
         if key is None: return val
         prev = self.hist.get(key)
-        if prev is None: prev = self.zero_of(ty)
-        r = self.merge(eg, val, prev, ty)
+        if prev is None:
+            r = val
+        else:
+            r = self.merge(self.before(key), prev, val, ty)
         self.hist[key] = r
         return r
 
